@@ -4,7 +4,7 @@
     string by pathToString, split and parsed by ygot.StringToPath, and indexed
     by the server as exactly the same elements.  For all queries, all byte
     strings. *)
-From Gnmi Require Import Base.Prelude Path.PathModel Path.QueryString.
+From Gnmi Require Import Base.Prelude Path.PathModel Path.QueryString Value.Utf8 Value.Utf8Proofs.
 Open Scope string_scope.
 
 (** * strings *)
@@ -53,7 +53,10 @@ Proof.
 Qed.
 
 Lemma plain_nonempty e : plain e = true -> str_empty e = false /\ all_chars plain_char e = true.
-Proof. unfold plain. rewrite andb_true_iff, negb_true_iff. tauto. Qed.
+Proof. unfold plain. rewrite !andb_true_iff, negb_true_iff. tauto. Qed.
+
+Lemma plain_valid e : plain e = true -> utf8_valid e = true.
+Proof. unfold plain. rewrite !andb_true_iff. tauto. Qed.
 
 Lemma path_to_string_cons e e2 q :
   path_to_string (e :: e2 :: q) = escape_slash e ++ String ch_slash (path_to_string (e2 :: q)).
@@ -84,7 +87,7 @@ Qed.
 Lemma split_path_query e q :
   forallb plain (e :: q) = true -> split_path (path_to_string (e :: q)) = e :: q.
 Proof.
-  intros Hp. unfold split_path.
+  intros Hp. unfold split_path, split_path_gen.
   pose proof (split_go_query q e [] "" Hp) as H. cbn zeta in H.
   destruct (split_go (path_to_string (e :: q)) [] "" false false) as [parts buf].
   cbn [fst snd] in H. destruct H as [H1 H2]. rewrite H2. cbn [negb orb]. exact H1.
@@ -145,7 +148,7 @@ Lemma elements_query e q :
   forallb plain (e :: q) = true -> last_ok (e :: q) = true ->
   path_string_to_elements (path_to_string (e :: q)) = e :: q.
 Proof.
-  intros Hp Hl. unfold path_string_to_elements. rewrite split_path_query by assumption.
+  intros Hp Hl. unfold path_string_to_elements, elements_gen. rewrite split_path_query by assumption.
   assert (Hpe : plain e = true) by (cbn in Hp; now apply andb_true_iff in Hp as [? _]).
   destruct (plain_nonempty e Hpe) as [Hne _].
   destruct e as [|c e]; [discriminate|].
@@ -177,7 +180,8 @@ Qed.
 Lemma extract_kv_plain e : plain e = true -> extract_kv e = Some (e, []).
 Proof.
   intros Hp. destruct (plain_nonempty e Hp) as [Hne Hpc].
-  unfold extract_kv. rewrite kv_run_plain by assumption. cbn. now rewrite no_space.
+  unfold extract_kv. rewrite (sanitize_valid e (plain_valid e Hp)).
+  unfold extract_kv_bytes. rewrite kv_run_plain by assumption. cbn. now rewrite no_space.
 Qed.
 
 Lemma structured_plain q :
@@ -206,6 +210,76 @@ Proof.
   induction q as [|x q IH]; cbn; [reflexivity|]. now rewrite IH.
 Qed.
 
+(** * the query string of valid elements is valid UTF-8 *)
+
+Lemma escape_slash_app a b : escape_slash (a ++ b) = escape_slash a ++ escape_slash b.
+Proof.
+  induction a as [|c a IH]; cbn; [reflexivity|].
+  destruct (Ascii.eqb c ch_slash); cbn; now rewrite IH.
+Qed.
+
+Lemma high_not_slash c : (byte_of c <? 128)%N = false -> Ascii.eqb c ch_slash = false.
+Proof.
+  intros H. destruct (Ascii.eqb c ch_slash) eqn:E; [|reflexivity].
+  apply Ascii.eqb_eq in E. subst c. discriminate.
+Qed.
+
+Lemma escape_slash_rune u :
+  rune u -> utf8_valid (escape_slash u) = true /\ (forall r, utf8_valid (escape_slash u ++ r) = utf8_valid r).
+Proof.
+  destruct 1 as [c H1|c c1 H1 H2 H3|c c1 c2 H1 H2 H3 H4 H5|c c1 c2 c3 H1 H2 H3 H4 H5 H6 H7].
+  - cbn [escape_slash]. destruct (Ascii.eqb c ch_slash) eqn:E.
+    + split; reflexivity.
+    + split; [cbn; now rewrite H1|intros r; cbn; now rewrite H1].
+  - assert (E : escape_slash (String c (String c1 "")) = String c (String c1 "")).
+    { cbn. now rewrite (high_not_slash c H1), (high_not_slash c1 (cont_high _ H3)). }
+    rewrite E. assert (Hr : rune (String c (String c1 ""))) by now constructor.
+    split; [rewrite <- (sapp_nil_r (String c (String c1 ""))); now rewrite utf8_valid_at|].
+    intros r. now apply utf8_valid_at.
+  - assert (E : escape_slash (String c (String c1 (String c2 ""))) = String c (String c1 (String c2 ""))).
+    { cbn. now rewrite (high_not_slash c H1), (high_not_slash c1 (second3_high _ _ H4)),
+        (high_not_slash c2 (cont_high _ H5)). }
+    rewrite E. assert (Hr : rune (String c (String c1 (String c2 "")))) by now constructor.
+    split; [rewrite <- (sapp_nil_r (String c (String c1 (String c2 "")))); now rewrite utf8_valid_at|].
+    intros r. now apply utf8_valid_at.
+  - assert (E : escape_slash (String c (String c1 (String c2 (String c3 "")))) =
+                String c (String c1 (String c2 (String c3 "")))).
+    { cbn. now rewrite (high_not_slash c H1), (high_not_slash c1 (second4_high _ _ H5)),
+        (high_not_slash c2 (cont_high _ H6)), (high_not_slash c3 (cont_high _ H7)). }
+    rewrite E. assert (Hr : rune (String c (String c1 (String c2 (String c3 ""))))) by now constructor.
+    split; [rewrite <- (sapp_nil_r (String c (String c1 (String c2 (String c3 ""))))); now rewrite utf8_valid_at|].
+    intros r. now apply utf8_valid_at.
+Qed.
+
+Lemma escape_slash_valid e : utf8_valid e = true -> utf8_valid (escape_slash e) = true.
+Proof.
+  revert e. apply utf8_ind; [reflexivity|]. intros u r Hu Hr IH.
+  rewrite escape_slash_app. destruct (escape_slash_rune u Hu) as [_ H]. now rewrite H.
+Qed.
+
+Lemma path_to_string_valid q : forallb utf8_valid q = true -> utf8_valid (path_to_string q) = true.
+Proof.
+  induction q as [|e q IH]; [reflexivity|]. intros H. cbn in H. apply andb_true_iff in H as [He Hq].
+  destruct q as [|e2 q]; [unfold path_to_string; cbn [map join_slash]; now apply escape_slash_valid|].
+  rewrite path_to_string_cons. rewrite utf8_valid_app by now apply escape_slash_valid.
+  change (utf8_valid (path_to_string (e2 :: q)) = true). now apply IH.
+Qed.
+
+Lemma plain_all_valid q : forallb plain q = true -> forallb utf8_valid q = true.
+Proof.
+  induction q as [|e q IH]; cbn; [reflexivity|]. intros H. apply andb_true_iff in H as [He Hq].
+  now rewrite (plain_valid e He), IH.
+Qed.
+
+(** on a query of valid elements the rune loop and the byte loop coincide *)
+Lemma go_elements_valid q :
+  forallb utf8_valid q = true ->
+  go_path_string_to_elements (path_to_string q) = path_string_to_elements (path_to_string q).
+Proof.
+  intros H. unfold go_path_string_to_elements, path_string_to_elements, split_path.
+  now rewrite (sanitize_valid _ (path_to_string_valid q H)).
+Qed.
+
 (** * the round trip *)
 
 Theorem query_roundtrip q :
@@ -213,6 +287,7 @@ Theorem query_roundtrip q :
 Proof.
   intros Hp Hl. destruct q as [|e q]; [reflexivity|].
   unfold query_index, query_path, string_to_path.
+  rewrite go_elements_valid by now apply plain_all_valid.
   rewrite elements_query, structured_plain, string_slice_plain by assumption.
   rewrite to_strings_plain_elems by discriminate. reflexivity.
 Qed.
@@ -225,6 +300,7 @@ Theorem query_path_plain q :
 Proof.
   intros Hp Hl. destruct q as [|e q]; [reflexivity|].
   unfold query_path, string_to_path.
+  rewrite go_elements_valid by now apply plain_all_valid.
   now rewrite elements_query, structured_plain, string_slice_plain by assumption.
 Qed.
 
@@ -233,6 +309,11 @@ Qed.
 Lemma query_roundtrip_trailing_slash_refuted :
   exists q, forallb plain q = true /\ query_index q <> Ok q.
 Proof. exists ["a"; "b/"]. split; [reflexivity|]. vm_compute. discriminate. Qed.
+
+(** invalid UTF-8 does not survive the trip (each offending byte becomes U+FFFD) *)
+Example query_invalid_utf8_mangled :
+  query_index [String (ascii_of_N 255) "a"] = Ok [(fffd ++ "a")%string].
+Proof. reflexivity. Qed.
 
 (** elements that are not plain do arrive mangled -- the guard is needed *)
 Example query_backslash_mangled : query_index ["a\"; "b"] = Ok ["a/b"].
